@@ -18,7 +18,7 @@ import (
 func init() {
 	registerProp("C01", func(seed uint64, tier string) *Plan { return genNet(seed, tier, "C01") }, map[string]func(*sim){"net": runNet})
 	registerProp("C05", func(seed uint64, tier string) *Plan { return genNet(seed, tier, "C05") }, map[string]func(*sim){"net": runNet})
-	registerProp("C18", func(seed uint64, tier string) *Plan { return genNet(seed, tier, "C18") }, map[string]func(*sim){"net": runNet})
+	registerProp("C18", genC18, map[string]func(*sim){"net": runNet, "node": runC18Node})
 }
 
 // ---------------------------------------------------------------------------------------------
@@ -615,7 +615,16 @@ func (g *netGen) genC18() {
 	evOp := func() {
 		switch x := r.intn(10); {
 		case x < 2 || g.nevh == 0:
-			g.add("evh", int64(r.intn(g.n)), int64(r.intn(g.nt)))
+			if a, b := g.randomEdge(); a >= 0 && r.chance(0.3) {
+				if r.chance(0.5) {
+					a, b = b, a
+				}
+				t := r.intn(g.nt)
+				g.add("evhrace", int64(a), int64(t), int64(b))
+				g.nsub[b][t]++
+			} else {
+				g.add("evh", int64(r.intn(g.n)), int64(r.intn(g.nt)))
+			}
 			g.nevh++
 		case x < 6:
 			g.add("evnext", int64(r.intn(g.nevh)))
